@@ -223,6 +223,12 @@ func c11(c *Ctx) {
 
 	for i := 0; i < c.N; i++ {
 		way := []string{"mage", "mage", "static"}[r.Intn(3)]
+		// the first case is fixed: the caller's environment names another go command and the flag names the default one
+		// explicitly (`-gocmd go`): the flag wins, also when it spells the default
+		explicitDefaultGo := i == 0
+		if explicitDefaultGo {
+			way = "mage"
+		}
 		var argv []string
 		runEnv := append([]string{}, env...)
 		tags := []string{"way=" + way}
@@ -239,7 +245,7 @@ func c11(c *Ctx) {
 			runEnv = append(runEnv, "MAGEFILE_TIMEOUT="+append(c11Durations, "bogus", "")[r.Intn(len(c11Durations)+2)])
 			tags = append(tags, "env:timeout")
 		}
-		if r.Chance(1, 5) {
+		if r.Chance(1, 5) || explicitDefaultGo {
 			runEnv = append(runEnv, "MAGEFILE_GOCMD="+goWrap)
 			tags = append(tags, "env:gocmd")
 		}
@@ -281,8 +287,13 @@ func c11(c *Ctx) {
 			case 1:
 				argv = append(argv, "-debug=false")
 			}
-			if r.Chance(1, 6) {
-				argv = append(argv, "-gocmd", goWrap)
+			if r.Chance(1, 6) || explicitDefaultGo {
+				g := goWrap
+				if explicitDefaultGo || r.Chance(1, 3) {
+					g = "go"
+					tags = append(tags, "flag:gocmd=go")
+				}
+				argv = append(argv, "-gocmd", g)
 			}
 			// directories
 			p := proj
